@@ -128,7 +128,7 @@ def main():
     R = load_registry()
     mine = [c for c in R.values() if c.prop == prop and not c.trusted and (not a.only or a.only in c.key)]
     timeout_ms = 10000 if tier == "quick" else 60000
-    obligs, carriers, errors, assumptions = [], [], [], set()
+    obligs, carriers, errors, assumptions, covers = [], [], [], set(), []
     if not a.no_proof:
         for c in mine:
             v = Verifier(R, prop)
@@ -152,8 +152,13 @@ def main():
             if not info["cover"].get("post", False) and not c.options.get("always_raises"):
                 errors.append(f"{c.key}: no path reaches a normal exit (cover failed)")
             obligs.extend(v.obligs)
+            covers.extend(v.covers)
             assumptions |= v.assumptions
-    results = discharge_all(obligs, timeout_ms) if obligs else {}
+    results = discharge_all(obligs + covers, timeout_ms, cover_timeout_ms=3000) if obligs else {}
+    for name in [n for n in results if "/cover/" in n]:
+        for r in results.pop(name):
+            if r["verdict"] == "unsat":
+                errors.append(f"{name}: contradictory precondition / vacuous contract ({r['note']})")
 
     # ---------------------------------------------------------------- verdicts
     base_path = os.path.join(HERE, "baseline", f"{prop}.json")
